@@ -36,8 +36,12 @@ CHECKS = [
      "technique": "property-based testing (Hypothesis) with scripted randomness: exact enumeration of alias-table rows x located thresholds against rate/total",
      "text": "Generated rate vectors (1-400 entries, up to 90% zeros, 12 decades, near-mean values): selection probabilities obtained "
              "by enumerating every table row and locating the break point of the second draw equal rate/total to 1e-12, total "
-             "rate equals fsum, zero-rate cells never selected.",
-     "note": "Trusted: scripted random substitution. Rates restricted to 0 or [1e-9,1e9] with positive sum."},
+             "rate equals fsum, zero-rate cells never selected. Cell-veto handler (real LeafUnitCellVetoEventHandler, harness Estimator "
+             "with known bounds, periodic grids, both charge signs): candidate time = e/(beta*sum max(B,0)*|q|*speed), offset "
+             "probabilities = max(B,0)/sum through alias rows x thresholds and the translate mapping, confirmation threshold = "
+             "q_true/(B(offset,direction)*|q|).",
+     "note": "Trusted: scripted random substitution (walker, cell-veto and bounding-potential modules), harness Estimator. Rates restricted "
+             "to 0 or [1e-9,1e9] with positive sum. The composite-object cell-veto handler is exercised in C07-C12 histories, not here."},
     {"id": "C02", "engine": "hypothesis-runner", "design_ref": "DESIGN.md §3 C02",
      "technique": "property-based testing (Hypothesis) with a forward oracle: cumulative uphill energy evaluated at the returned point (bracketing), contact equation + convexity for hard cores",
      "text": "Generated (potential, parameters, separation per geometric branch incl. head-on/tangential/on the minimum sphere, "
@@ -61,7 +65,11 @@ CHECKS = [
      "text": "Domination is searched with three generators sharing one oracle (q_true>0 => 0<q_true<=q_bound): a lattice scan of the "
              "minimum-image cube (72^3 quick / 240^3 thorough x 3 directions x 2 signs), Hypothesis draws steered by target() with a "
              "dedicated class at the edge mid-points where the supremum 0.99990 sits, and local refinement; covariance under box "
-             "length, axis permutation and charge magnitude is asserted. Largest ratio found is reported in evidence.",
+             "length, axis permutation and charge magnitude is asserted. Largest ratio found is reported in evidence. Acceptance: real "
+             "TwoLeafUnitBoundingPotential and TwoCompositeObjectSummedBoundingPotential handlers under scripted draws - the break "
+             "point of the hand-over in the confirmation draw equals max(0,q_true)/q_bound recomputed by independent oracles at the "
+             "time-sliced separation, nothing changes above it. In runs: the code's own bounding_potential_warning must stay silent "
+             "for handlers using the 1/r bound.",
      "note": "Exploration: the supremum is a limit (s_d -> 0 at an edge mid-point), margin 1e-4; a bound prefactor >= 1.58355 cannot "
              "be told from a valid one. True rate = MergedImageCoulombPotential at default Ewald parameters (tied to the converged "
              "sum by C03); noise floor 1e-11/L^2."},
